@@ -284,3 +284,125 @@ func TestC09Refusal(t *testing.T) {
 		return genPairCase(t, []string{"set", "mset", "setkeys:id"}, nil)
 	}, checkC09Refusal)
 }
+
+// ---- documents that came out of Patch (not out of a reader)
+//
+// a' = Patch(A, A.Diff(X)) is a document like any other; its diff against B
+// must translate just as faithfully as the diff of a freshly read document.
+
+func emptySomeArrays(t *rapid.T, v val.V) val.V {
+	switch x := v.(type) {
+	case []val.V:
+		if len(x) > 0 && gen.Chance(t, "emptyIt", 45) {
+			return []val.V{}
+		}
+		out := make([]val.V, len(x))
+		for i, e := range x {
+			out[i] = emptySomeArrays(t, e)
+		}
+		return out
+	case map[string]val.V:
+		out := map[string]val.V{}
+		for _, k := range val.Keys(x) {
+			out[k] = emptySomeArrays(t, x[k])
+		}
+		return out
+	}
+	return v
+}
+
+func checkC09Patched(c PatchedCase, r *rec.Rec) error {
+	mk, pv, err := patchedDoc(c)
+	if err != nil {
+		r.Class("skipped:" + err.Error())
+		return nil
+	}
+	bv, err := val.Parse(c.B)
+	if err != nil {
+		return fmt.Errorf("bad case: %v", err)
+	}
+	var d jd.Diff
+	if msg, p := jdx.Guard(func() { d = mk().Diff(jdx.NodeText(c.B)) }); p {
+		return rec.Violated("Diff panicked on a patched document: %s", msg)
+	}
+	hs, err := jdx.ToHunks(d)
+	if err != nil {
+		return rec.Violated("diff holds an unreadable node: %v", err)
+	}
+	if mustRefuse, grey := keyExpressibility(hs); mustRefuse || grey {
+		r.Class("skipped:inexpressible-key")
+		return nil
+	}
+	var ptext string
+	var perr error
+	if msg, p := jdx.Guard(func() { ptext, perr = d.RenderPatch() }); p {
+		return rec.Violated("RenderPatch panicked: %s", msg)
+	}
+	desc := fmt.Sprintf("a' = Patch(%s, diff to %s) = %s, b = %s", c.A, c.X, val.JSON(pv), c.B)
+	if perr != nil {
+		return rec.Violated("%s: RenderPatch refuses an expressible diff: %v\nnative diff:\n%s", desc, perr, d.Render())
+	}
+	patch, err := val.Parse(ptext)
+	if err != nil {
+		return rec.Violated("%s: RenderPatch output is not JSON: %v\n%s", desc, err, ptext)
+	}
+	if err := wellFormed6902(patch); err != nil {
+		return rec.Violated("%s: RenderPatch output is not a well-formed JSON Patch: %v\n%s", desc, err, ptext)
+	}
+	got, err := ref.Patch6902(pv, patch)
+	if err != nil {
+		return rec.Violated("%s: the rendered JSON Patch does not apply to a' under RFC 6902: %v\npatch: %s", desc, err, ptext)
+	}
+	if !val.Equal(got, bv, val.List) {
+		return rec.Violated("%s: the rendered JSON Patch turns a' into %s\npatch: %s", desc, val.JSON(got), ptext)
+	}
+	// and the native text of that diff reads back to the same effect
+	var native string
+	jdx.Guard(func() { native = mk().Diff(jdx.NodeText(c.B)).Render() })
+	if d2, err := jd.ReadDiffString(native); err != nil {
+		return rec.Violated("%s: jd cannot read the native rendering: %v\n%s", desc, err, native)
+	} else if out := jdx.Patch(jdx.NodeText(val.JSON(pv)), d2); !out.OK() || !out.Node.Equals(jdx.NodeText(c.B)) {
+		return rec.Violated("%s: the native rendering does not turn a' into b\n%s", desc, native)
+	}
+	cls, nontrivial := patchClasses(patch)
+	cls = append(cls, "patched-origin")
+	r.Case(fmt.Sprintf("%v", c), nontrivial, cls...)
+	if nontrivial {
+		r.Sample(c)
+	}
+	return nil
+}
+
+func genC09Patched(t *rapid.T) PatchedCase {
+	p := gen.Profile{ArrayBias: 60, MaxArr: 5}
+	a := gen.Doc(t, p)
+	var x val.V
+	switch gen.Int(t, "xKind", 0, 2) {
+	case 0:
+		x = emptySomeArrays(t, a)
+	case 1:
+		x = emptySomeArrays(t, gen.Edit(t, a, p))
+	default:
+		x = gen.EditN(t, a, p, 1, 3)
+	}
+	var b val.V
+	switch gen.Int(t, "bKind", 0, 3) {
+	case 0:
+		b = gen.EditN(t, x, p, 1, 3)
+	case 1:
+		// whatever was emptied is now removed, replaced or a neighbour of an edit
+		b = []val.V{"front", x}
+		if l, ok := x.([]val.V); ok {
+			b = append([]val.V{"front"}, l...)
+		}
+	case 2:
+		b = val.Clone(a)
+	default:
+		b = gen.Doc(t, p)
+	}
+	return PatchedCase{A: val.JSON(a), X: val.JSON(x), PatchOpts: "list", B: val.JSON(b), Opts: "list"}
+}
+
+func init() { Register("C09", "patched", checkC09Patched) }
+
+func TestC09Patched(t *testing.T) { RunRandom(t, "C09", "patched", genC09Patched, checkC09Patched) }
